@@ -891,17 +891,19 @@ fn oracle_c11(t: &LspTrace, h: &History, stats: &mut Stats) -> Vec<Violation> {
 // ---------------------------------------------------------------------------------------------
 // C15: semantic tokens
 
-fn legend_of(h: &History) -> Vec<String> {
+fn legend_of(h: &History) -> (Vec<String>, usize) {
     for inc in &h.incarnations {
         if let Some(step) = inc.steps.first() {
             for o in &step.outputs {
-                if let Some(arr) = o["result"]["capabilities"]["semanticTokensProvider"]["legend"]["tokenTypes"].as_array() {
-                    return arr.iter().map(|v| v.as_str().unwrap_or("").to_string()).collect();
+                let legend = &o["result"]["capabilities"]["semanticTokensProvider"]["legend"];
+                if let Some(arr) = legend["tokenTypes"].as_array() {
+                    let n_modifiers = legend["tokenModifiers"].as_array().map(|a| a.len()).unwrap_or(0);
+                    return (arr.iter().map(|v| v.as_str().unwrap_or("").to_string()).collect(), n_modifiers);
                 }
             }
         }
     }
-    vec![]
+    (vec![], 0)
 }
 
 /// (line, character) of every byte offset that starts a character, LSP style (ASCII documents:
@@ -932,7 +934,7 @@ const DEFINITE_KEYWORDS: &[&str] = &[
     "RESOURCE", "END_RESOURCE", "TASK", "WITH",
 ];
 
-fn check_tokens(text: &str, data: &[u64], legend: &[String]) -> Result<usize, (String, String)> {
+fn check_tokens(text: &str, data: &[u64], legend: &[String], n_modifiers: usize) -> Result<usize, (String, String)> {
     let (tokens, lex) = tokenize_program(text, &FileId::default(), &ParseOptions::default());
     debug_assert!(lex.is_empty());
     if data.len() % 5 != 0 {
@@ -970,8 +972,8 @@ fn check_tokens(text: &str, data: &[u64], legend: &[String]) -> Result<usize, (S
         if ty as usize >= legend.len() {
             return Err(("type-outside-legend".into(), format!("token {k} has type index {ty}, legend has {} entries", legend.len())));
         }
-        if mods != 0 {
-            return Err(("modifiers-outside-legend".into(), format!("token {k} has modifier bits {mods} but no modifiers are advertised")));
+        if mods >> n_modifiers.min(63) != 0 {
+            return Err(("modifiers-outside-legend".into(), format!("token {k} has modifier bits {mods:b} but only {n_modifiers} modifier(s) are advertised")));
         }
         let Some(offset) = table.get(&(line, start)).copied() else {
             return Err(("position-outside-document".into(), format!("token {k} decodes to ({line},{start}) which is not a position of the document")));
@@ -1093,7 +1095,7 @@ fn fresh_server_tokens(uri: &str, text: &str, seed: u64) -> Result<Value, String
 
 fn oracle_c15(t: &LspTrace, h: &History, stats: &mut Stats) -> Vec<Violation> {
     let mut out = vec![];
-    let legend = legend_of(h);
+    let (legend, n_modifiers) = legend_of(h);
     if legend.is_empty() {
         out.push(viol("C15", "C15/no-legend".into(), "the initialize response advertises no semantic token legend".into()));
         return out;
@@ -1156,7 +1158,7 @@ fn oracle_c15(t: &LspTrace, h: &History, stats: &mut Stats) -> Vec<Violation> {
                 continue;
             }
             let data: Vec<u64> = result["data"].as_array().map(|a| a.iter().map(|v| v.as_u64().unwrap_or(u64::MAX)).collect()).unwrap_or_default();
-            match check_tokens(&text, &data, &legend) {
+            match check_tokens(&text, &data, &legend, n_modifiers) {
                 Ok(n) => {
                     stats.add("c15.tokens_decoded", n as u64);
                     if n > 0 {
